@@ -174,7 +174,20 @@ func illFormed(r *rand.Rand, matches int) ref.Block {
 	return b
 }
 
+// projection: many matching combinations, few distinct derived facts.
+func projection(n int) ref.Block {
+	var b ref.Block
+	for i := 0; i < n; i++ {
+		b.Facts = append(b.Facts, ref.Pred{Name: "p", Terms: []ref.Term{ref.Int(int64(i))}})
+	}
+	b.Rules = []ref.Rule{{Head: ref.Pred{Name: "q", Terms: []ref.Term{ref.Var("x")}}, Body: []ref.Pred{{Name: "p", Terms: []ref.Term{ref.Var("x")}}, {Name: "p", Terms: []ref.Term{ref.Var("y")}}}}}
+	return b
+}
+
 func c11Program(r *rand.Rand, g *gen.G) ref.Block {
+	if r.Intn(10) == 0 {
+		return projection(3 + r.Intn(8))
+	}
 	switch r.Intn(7) {
 	case 0:
 		return crossProduct(2 + r.Intn(6))
